@@ -20,7 +20,9 @@
         -> ownership_invariant (no dictionary reachable from a built object is writable through any builder,
            after any history; connect() resolving node names, node objects and ALIASES alike: connect_by_alias_is_connect_by_name,
            modify_then_connect_by_any_name_frozen; no function handed a built object writes through it:
-           derivations_do_not_write_their_source), built_dataset_frozen, built_pipeline_frozen (every observation constant along
+           derivations_do_not_write_their_source; no method of a built object writes through its own description:
+           built_objects_do_not_write_their_description; a builder or pipeline made from the pipeline's own configuration:
+           from_config_of_own_configuration_frozen), built_dataset_frozen, built_pipeline_frozen (every observation constant along
            every continuation in which that pipeline itself is not trained and trained pipelines own their
            trainable instances), built_pipeline_config_frozen (configuration part: unconditionally)
    * "Components likewise leave the item lists they are given unchanged"
@@ -102,6 +104,24 @@ Theorem derivations_do_not_write_their_source : source_param_writes = [].
 Proof. exact no_source_writes_l. Qed.
 Print Assumptions derivations_do_not_write_their_source.
 
+(* "its configuration, hash, wiring, schema ... saved form ... remain exactly what they were" under READ-ONLY use by the object itself:
+   regenerated scan -- no method of a built Dataset / DataContainer / Pipeline (constructors aside) writes through the parts that describe it
+   (schema, tables, configuration, wiring, node and alias tables), through a local bound to something reached from one, or calls an in-place
+   method on either; what an accessor wants to remember goes into a cache attribute of its own, not into the description *)
+Theorem built_objects_do_not_write_their_description : self_description_writes = [].
+Proof. exact no_self_description_writes_l. Qed.
+Print Assumptions built_objects_do_not_write_their_description.
+
+(* "cloning it" / handing the pipeline's OWN configuration back to lenskit (clone(), Pipeline.from_config(p.config), PipelineBuilder.from_config(p.config)):
+   the builder made from the configuration document the pipeline shows -- every node of it, every literal whether referenced or not, wiring,
+   aliases, default -- by the builder's own calls leaves the pipeline exactly as it was (no side condition: nothing is trained) *)
+Theorem from_config_of_own_configuration_frozen : forall ops1 j p i,
+  nth_error (st_pipes (run init ops1)) j = Some p ->
+  let s1 := run init ops1 in let s2 := run s1 (from_config_ops i (obs_p s1 p)) in
+  nth_error (st_pipes s2) j = Some p /\ obs_p s2 p = obs_p s1 p.
+Proof. exact from_config_frozen_l. Qed.
+Print Assumptions from_config_of_own_configuration_frozen.
+
 (* regenerated scan of the source: no component __call__ assigns through an ItemList parameter, through a local bound
    to its contents without a copy, or calls an in-place method on either *)
 Theorem components_do_not_write_itemlists : itemlist_param_writes = [].
@@ -137,4 +157,21 @@ Proof.
   - split; [repeat constructor; cbn; congruence|].
     eexists. eexists. split; [vm_compute; reflexivity|]. split; [vm_compute; reflexivity|].
     repeat split; try (vm_compute; reflexivity). eexists. split; vm_compute; reflexivity.
+Qed.
+
+(* non-vacuity of from_config_of_own_configuration_frozen: a pipeline with a literal node nothing refers to ("k1") and an alias; the builder
+   made from the document it shows is built: the new pipeline shows the same document (the unreferenced literal included), the original is as it was *)
+Example c14_from_config_nonvacuous :
+  let ops1 := [PNew (Some "p"); PBNode 0 "a" NSIn; PBNode 0 "k1" (NSLit "5"); PBNode 0 "n" (NSCtor "vcomp:Learner");
+               PBWire 0 "n" (fun w => dset "x" "a" w); PBAlias 0 (fun a => dset "rec" "n" a); PBDefault 0 (Some "n"); PBuild 0] in
+  let s1 := run init ops1 in
+  exists p, nth_error (st_pipes s1) 0 = Some p /\
+    let s2 := run s1 (from_config_ops 1 (obs_p s1 p) ++ [PBuild 1]) in
+    exists q, nth_error (st_pipes s2) 1 = Some q /\ obs_p s2 q = obs_p s1 p /\ obs_p s2 p = obs_p s1 p /\
+      In ("k1", ("@literal", Some [("value", "5")])) (po_nodes (obs_p s2 q)) /\ inst_refs q <> inst_refs p.
+Proof.
+  cbv zeta. eexists. split; [vm_compute; reflexivity|]. eexists. split; [vm_compute; reflexivity|].
+  repeat split; try (vm_compute; reflexivity).
+  - vm_compute. tauto.
+  - vm_compute. discriminate.
 Qed.
